@@ -15,18 +15,11 @@ present - region `strippedPositionalIsDeclaredDefaulted`).  Negation witnesses b
 namespace PedVerif.Call
 open PedVerif.Checker PedVerif.Gen.CallTables
 
-/-- region: the first positional argument is stripped as if it were `self`/`cls` although the call has no implicit
-    argument, it is the only positional, and nothing later notices (the first declared parameter has a default, or the
-    decorator is `require_kwargs`, which checks nothing else) -/
-def regionStripped (f : Fn) (t : Truth) (args : List Val) : Bool :=
-  f.strips && t.implicit == 0 && args.length == 1 &&
-  (f.mode == .requireKwargs || (match f.plain.head? with | some p => p.dflt.isSome | none => true))
-
 /-- under truthful flags `should_have_kwargs` is exactly "no *args parameter and not exempt" -/
 theorem shk_of_truthful (f : Fn) (t : Truth) (ht : truthful f t = true) :
     f.shouldHaveKwargs = (!hasVarPos f && !exempt f t) := by
   simp only [truthful, Bool.and_eq_true, beq_iff_eq] at ht
-  obtain ⟨⟨h1, _⟩, h3⟩ := ht
+  obtain ⟨⟨⟨h1, _⟩, h3⟩, _⟩ := ht
   simp only [Fn.shouldHaveKwargs, cfg_shk, exempt, h1, h3]
   cases t.realSetter <;> cases hasVarPos f <;> cases f.startsDunder <;> cases f.endsDunder <;>
     cases requireKwargsDunders.contains f.name <;> rfl
@@ -120,8 +113,8 @@ def witnessStatic : Fn :=
 theorem positional_fails_strippedDefaulted :
     (runCall envW (fun _ _ => .raisedOther) witnessStatic [.lit (.int 5)] [] (.ret (.lit (.int 9)))).caller = .ret ∧
     (runCall envW (fun _ _ => .raisedOther) witnessStatic [.lit (.int 5)] [] (.ret (.lit (.int 9)))).bodyRan = true ∧
-    truthful witnessStatic ⟨true, false, 0⟩ = true ∧ hasVarPos witnessStatic = false ∧ exempt witnessStatic ⟨true, false, 0⟩ = false ∧
-    regionStripped witnessStatic ⟨true, false, 0⟩ [.lit (.int 5)] = true := by decide
+    truthful witnessStatic ⟨true, false, false, 0⟩ = true ∧ hasVarPos witnessStatic = false ∧ exempt witnessStatic ⟨true, false, false, 0⟩ = false ∧
+    regionStripped witnessStatic ⟨true, false, false, 0⟩ [.lit (.int 5)] = true := by decide
 
 /-- `@pedantic def f(a: int) -> int` whose body has a comment mentioning `*args`: `f(5)` is accepted -/
 def witnessComment : Fn :=
@@ -131,19 +124,19 @@ def witnessComment : Fn :=
 /-- region `bodyMentionsStarArgs`: the text `*args` in a comment switches the discipline off -/
 theorem positional_fails_bodyMentionsStarArgs :
     (runCall envW (fun _ _ => .raisedOther) witnessComment [.lit (.int 5)] [] (.ret (.lit (.int 9)))).caller = .ret ∧
-    truthful witnessComment ⟨false, false, 0⟩ = false ∧ hasVarPos witnessComment = false := by decide
+    truthful witnessComment ⟨false, false, true, 0⟩ = false ∧ hasVarPos witnessComment = false := by decide
 
 theorem Positional_full_is_false : ¬ Positional_full := by
   intro h
   have w := positional_fails_bodyMentionsStarArgs
-  have := (h envW (fun _ _ => .raisedOther) witnessComment ⟨false, false, 0⟩ [.lit (.int 5)] [] (.ret (.lit (.int 9)))
+  have := (h envW (fun _ _ => .raisedOther) witnessComment ⟨false, false, true, 0⟩ [.lit (.int 5)] [] (.ret (.lit (.int 9)))
     w.2.2 (by decide) (by decide)).2
   rw [w.1] at this
   simp at this
 
 -- non-vacuity: a truthful plain function, positional call rejected
 def plainFn : Fn := { witnessComment with flags := flagsOfSource "f" "@pedantic\ndef f(a: int) -> int:\n    return a\n" }
-example : truthful plainFn ⟨false, false, 0⟩ = true ∧ regionStripped plainFn ⟨false, false, 0⟩ [.lit (.int 5)] = false ∧
+example : truthful plainFn ⟨false, false, true, 0⟩ = true ∧ regionStripped plainFn ⟨false, false, true, 0⟩ [.lit (.int 5)] = false ∧
     (runCall envW (fun _ _ => .raisedOther) plainFn [.lit (.int 5)] [] (.ret (.lit (.int 9)))).caller = .pedCallWithArgs := by decide
 
 end PedVerif.Call
